@@ -271,8 +271,25 @@ def _texpr_item(it):
     return "s(%s%s)" % (".".join(w) or "-", "".join(";" + f for f in fs))
 
 
-def resolve(items):
+def collect_manual_sized(repo, strip_comments):
+    """`impl EtherCrabWireSized for X { const PACKED_LEN: usize = N; … }` written by hand (bitflags wrappers, PduFlags, …):
+    type name -> N (None if N is not a literal). Their behaviour is not modelled (`Codec.unknown N`), their size is."""
+    out = {}
+    for d, _, fs in os.walk(os.path.join(repo, "src")):
+        for f in sorted(fs):
+            if not f.endswith(".rs") or os.path.relpath(os.path.join(d, f), repo).startswith("src/verif"):
+                continue
+            text = strip_comments(open(os.path.join(d, f)).read())
+            for m in re.finditer(r"impl\s+(?:[\w:]+::)?EtherCrabWireSized\s+for\s+(\w+)\s*\{", text):
+                end = _match_close(text, m.end() - 1, "{", "}")
+                pm = re.search(r"const\s+PACKED_LEN\s*:\s*usize\s*=\s*([^;]+);", text[m.end():end])
+                out[m.group(1)] = _int_lit(pm.group(1)) if pm else None
+    return out
+
+
+def resolve(items, manual=None):
     """Resolve field types (prims, arrays, other extracted items); returns the items with nested types first."""
+    manual = manual or {}
     by_name = {}
     for it in items:
         by_name.setdefault(it["name"], []).append(it)
@@ -297,11 +314,16 @@ def resolve(items):
             if n is not None and el is not None:
                 return "other", "Codec.array (%s) %d" % (c, n), "a(%d,%s)" % (n, t), el * n
             return "other", "Codec.unknown 0", "x", None
+        pm = re.match(r"^(?:\w+::)+(\w+)$", ty)  # a path: the macro sees no single ident (class `other`); resolve by last segment
+        if pm and pm.group(1) not in _PRIMS:
+            ty = pm.group(1)
         if re.match(r"^\w+$", ty):
             it = lookup(ty, file)
             if it is not None and not it["generic"]:
                 visit(it)
                 return "other", "%s %s" % ("enumCodec" if it["kind"] == "enum" else "structCodec", it["lean"]), it["texpr"], it["size"]
+            if manual.get(ty) is not None:
+                return "other", "Codec.unknown %d" % manual[ty], "x%d" % manual[ty], manual[ty]
         return "other", "Codec.unknown 0", "x", None
 
     def visit(it):
@@ -324,9 +346,68 @@ def resolve(items):
     return order
 
 
+def _lawful_term(codec, by_lean):
+    """Lean proof term of `Lawful (<codec expr>)`, or None if the codec contains an unknown/opaque type."""
+    m = re.match(r"^Codec\.uN (\d+)$", codec)
+    if m:
+        return "lawful_uN _"
+    m = re.match(r"^Codec\.iN (\d+)$", codec)
+    if m:
+        return "lawful_iN _"
+    if codec == "Codec.bool":
+        return "lawful_bool"
+    m = re.match(r"^Codec\.array \((.*)\) (\d+)$", codec)
+    if m:
+        inner = _lawful_term(m.group(1), by_lean)
+        return None if inner is None else "lawful_array _ _ (%s) (by decide)" % inner
+    m = re.match(r"^(?:enumCodec|structCodec) (\w+)$", codec)
+    if m and by_lean.get(m.group(1), {}).get("lawful"):
+        return "%s_lawful" % m.group(1)
+    return None
+
+
+def gen_layouts_lawful(items):
+    """Generated/LayoutsLawful.lean: for every extracted type without opaque parts, the proof that it satisfies every
+    hypothesis of the C19 theorems (decidable side conditions by `decide`, field types by composition)."""
+    by_lean = {it["lean"]: it for it in items}
+    L = ["-- REGENERATED by /verif/tools/extract.py (extract_layouts.py) from /repo on every run. Do not edit.",
+         "-- Obligations: every derived type of /repo/src whose parts are all modelled satisfies the hypotheses of the C19 theorems.",
+         "import EcModel.Lemmas.WireEnum", "import EcModel.Generated.Layouts", "namespace Ec.Gen.Layouts", "open Ec.Wire", ""]
+    table, opaque = [], []
+    for it in items:  # nested types first
+        if it["kind"] == "enum":
+            it["lawful"] = True
+            L.append("theorem %s_lawful : Lawful (enumCodec %s) := enumCodec_lawful _ (by decide)" % (it["lean"], it["lean"]))
+            table.append('("%s", ⟨enumCodec %s, %s_lawful⟩)' % (it["id"], it["lean"], it["lean"]))
+        else:
+            terms = [_lawful_term(f["codec"], by_lean) for f in it["fields"]]
+            if any(t is None for t in terms):
+                it["lawful"] = False
+                opaque.append(it["id"])
+                continue
+            it["lawful"] = True
+            L.append("theorem %s_lawful : Lawful (structCodec %s) :=\n  structCodec_lawful_of_decl _ (by decide) ⟨%s⟩" % (
+                it["lean"], it["lean"], ", ".join(terms + ["trivial"])))
+            table.append('("%s", ⟨structCodec %s, %s_lawful⟩)' % (it["id"], it["lean"], it["lean"]))
+    L.append("")
+    L.append("/-- (identifier, codec of the derived type together with the proof that it obeys the codec laws). -/")
+    L.append("def lawfulTable : List (String × { c : Codec // Lawful c }) := [")
+    L.append(",\n".join("  " + t for t in table))
+    L.append("]")
+    L.append("/-- structs with a field whose type has a hand-written impl or is unknown to the extractor: not in the table. -/")
+    L.append("def opaqueStructs : List String := [%s]" % ", ".join('"%s"' % o for o in opaque))
+    L.append("end Ec.Gen.Layouts")
+    return "\n".join(L) + "\n"
+
+
 def gen_layouts(h):
     repo, strip_comments, missing = h["repo"], h["strip_comments"], h["missing"]
-    items = resolve(collect_wire_items(repo, strip_comments, missing))
+    items = resolve(collect_wire_items(repo, strip_comments, missing), collect_manual_sized(repo, strip_comments))
+    lawful_text = gen_layouts_lawful(items)
+    lp = os.path.join(os.path.dirname(os.path.abspath(__file__)), "..", "lean", "EcModel", "Generated", "LayoutsLawful.lean")
+    if not os.path.exists(lp) or open(lp).read() != lawful_text:
+        with open(lp, "w") as f:
+            f.write(lawful_text)
     L = ["-- REGENERATED by /verif/tools/extract.py (extract_layouts.py) from /repo on every run. Do not edit.",
          "-- Wire layout of every #[derive(EtherCrabWire…)] struct/enum in /repo/src/**/*.rs, as the derive macro sees it.",
          "import EcModel.Wire", "namespace Ec.Gen.Layouts", "open Ec.Wire", ""]
@@ -390,4 +471,75 @@ def gen_layouts(h):
     if old != txt:
         with open(tp, "w") as f:
             f.write(txt)
+    return "\n".join(L) + "\n"
+
+
+def gen_wire_macro(h):
+    """Generated/WireMacro.lean: the tables and constants of the derive macro the model *uses* (T1), plus presence checks of
+    the code shapes the hand translation follows (a refactor that moves them is reported, not skipped)."""
+    repo, strip_comments, missing = h["repo"], h["strip_comments"], h["missing"]
+
+    def rd(name):
+        t = open(os.path.join(repo, "ethercrab-wire-derive", "src", name)).read()
+        cut = t.find("#[cfg(test)]\nmod tests")
+        return strip_comments(t[:cut] if cut >= 0 else t)
+
+    ps, pe, gs, ge = rd("parse_struct.rs"), rd("parse_enum.rs"), rd("generate_struct.rs"), rd("generate_enum.rs")
+    arm = r'((?:"\w+"\s*\|\s*)*"\w+")\s*=>\s*'
+
+    def table(text, rhs, what):
+        out = []
+        for m in re.finditer(arm + rhs, text):
+            for name in re.findall(r'"(\w+)"', m.group(1)):
+                out.append((name, int(m.group(2))))
+        if not out:
+            missing.append("wire layout macro fact: " + what)
+        return out
+
+    widths = table(ps, r"Some\((\d+)\)", "parse_struct auto width table")
+    if not re.search(r"bytes\.map\(\|bytes\|\s*bytes\s*\*\s*8\)", ps):
+        missing.append("wire layout macro fact: parse_struct `bytes * 8`")
+    sizes = table(ge, r"(\d+)(?:usize)?\s*,", "generate_enum size table")
+    half = len(sizes) // 2
+    if len(sizes) % 2 or sizes[:half] != sizes[half:]:
+        missing.append("wire layout macro fact: generate_enum write/read size tables differ")
+    sizes = sizes[:half] if half else sizes
+    m = re.search(r"let\s+mut\s+discriminant_accum\s*=\s*(-?\d+)\s*;", pe)
+    if not m:
+        missing.append("wire layout macro fact: parse_enum discriminant_accum initial value")
+    accum_init = int(m.group(1)) if m else 0
+    m = re.search(r"None\s*=>\s*discriminant_accum\s*\+\s*(\d+)\s*,", pe)
+    if not m:
+        missing.append("wire layout macro fact: parse_enum implicit discriminant step")
+    step = int(m.group(1)) if m else 1
+    alts_advance = bool(re.search(r"discriminant_accum\s*=\s*alternative\s*;", pe))
+    shapes = [
+        (pe, r"discriminant_accum\s*=\s*variant_discriminant\s*;", "parse_enum accumulator follows the variant's discriminant"),
+        (ps, r"meta\.bytes\.len\(\)\s*>\s*1\s*&&\s*\(bit_offset\s*>\s*0\s*\|\|\s*field_width\s*%\s*8\s*>\s*0\)", "parse_struct multibyte alignment check"),
+        (ps, r"meta\.bits\.len\(\)\s*<\s*8\s*&&\s*meta\.bytes\.len\(\)\s*>\s*1", "parse_struct small-field crossing check"),
+        (ps, r"total_field_width\s*!=\s*width", "parse_struct total width check"),
+        (gs, r'ty_name\s*==\s*"u8"\s*\|\|\s*ty_name\s*==\s*"bool"', "generate_struct_write u8/bool shortcut"),
+        (gs, r"field\.bytes\.len\(\)\s*==\s*1", "generate_struct_write single-byte branch"),
+        (gs, r"field\.bits\.len\(\)\s*<=\s*8", "generate_struct_read small-field branch"),
+        (gs, r"\(2u16\.pow\(field\.bits\.len\(\)\s*as\s*u32\)\s*-\s*1\)\s*<<\s*bit_start", "generate_struct mask expression"),
+        (gs, r"write_bytes\(0u8,\s*buf\.len\(\)\)", "generate_struct_write zeroing"),
+        (ge, r"\*self\s+as\s+#repr_type", "generate_enum_write `as repr` cast"),
+        (ge, r"first_chunk::<#size_bytes>\(\)", "generate_enum_read first_chunk"),
+    ]
+    for text, pat, what in shapes:
+        if not re.search(pat, text):
+            missing.append("wire layout macro fact: " + what)
+    L = ["-- REGENERATED by /verif/tools/extract.py (extract_layouts.py) from /repo/ethercrab-wire-derive on every run. Do not edit.",
+         "namespace Ec.Gen.WireMacro",
+         "/-- parse_struct.rs: default field width in BYTES by the type's first token. -/",
+         "def autoWidthBytes : List (String × Nat) := [%s]" % ", ".join('("%s", %d)' % p for p in widths),
+         "/-- generate_enum.rs: PACKED_LEN by repr (both the write and the read half). -/",
+         "def reprSizes : List (String × Nat) := [%s]" % ", ".join('("%s", %d)' % p for p in sizes),
+         "/-- parse_enum.rs: `let mut discriminant_accum = …;` -/",
+         "def accumInit : Int := %d" % accum_init,
+         "/-- parse_enum.rs: `None => discriminant_accum + …` -/",
+         "def implicitStep : Int := %d" % step,
+         "/-- parse_enum.rs: does `discriminant_accum = alternative;` exist (alternatives advance the accumulator)? -/",
+         "def alternativesAdvance : Bool := %s" % ("true" if alts_advance else "false"),
+         "end Ec.Gen.WireMacro"]
     return "\n".join(L) + "\n"
